@@ -414,6 +414,7 @@ pub fn c04_faulted(ctx: &Ctx, out: &mut RunOut) -> Result<(), Violation> {
                 guarded("IncrementalDocument::load_from", || on_small_stack(ctx, || lopdf::IncrementalDocument::load_from(&img[..])))?.ok().map(|i| i.get_prev_documents().clone())
             }
         };
+        ctx.event("c04-outcome", loaded.is_some() as u64, loaded.as_ref().map(sim::full_digest).unwrap_or(0));
         if let Some(d) = &loaded {
             ctx.count("faulted-image-loaded-ok");
             guarded("decoders on the loaded document", || on_small_stack(ctx, || exercise_decoders(d)))?;
